@@ -6,6 +6,8 @@
 
    The abstract protocol has static membership; it includes flushing, crash/restart, and snapshot
    installation over logical logs (compaction is invisible), so histories with snapshots are covered.
+   Its network may lose, duplicate, reorder and TRUNCATE append requests (a follower that consumed k
+   whole entries of a request before the connection broke: event ARecvCut).
 
    A history is a list of (event, observed projections).  The projection of a node is
    (term, vote, role, log, durable prefix length, commit index). *)
@@ -126,4 +128,38 @@ Proof. eexists. vm_compute. reflexivity. Qed.
 (* a snapshot whose contents were never acknowledged by a majority is rejected *)
 Example uncommitted_snapshot_rejected :
   run [1; 2; 3] (firstn 5 sample_history_snapshot ++ [(AInstall 3 2 1 [(2,1)] 1%nat, [(3,(mkO 2 0 Follower [(2,1)] 1%nat 1%nat))])]) = RFail 5 104.
+Proof. vm_compute. reflexivity. Qed.
+
+(* non-vacuity with a request cut by the network: node 1 leads term 2 with two entries in its log and
+   sends both to node 2; the connection breaks after node 2 handled the first one (appended and
+   flushed, no answer sent); the retransmitted whole request then brings the second entry, node 2's
+   answer reaches node 1 and both entries are committed *)
+Definition sample_history_cut : list (aevent * list (N * obs)) := [
+ (AStart 1, [(1,(mkO 2 1 Candidate [] 0%nat 0%nat));(2,(mkO 1 0 Follower [] 0%nat 0%nat));(3,(mkO 1 0 Follower [] 0%nat 0%nat))]);
+ (AVoteRes 1 1 true, [(1,(mkO 2 1 Candidate [] 0%nat 0%nat))]);
+ (AVoteReq 2 2 1 true, [(2,(mkO 2 1 Follower [] 0%nat 0%nat))]);
+ (AVoteRes 1 2 true, [(1,(mkO 2 1 Leader [(2,1)] 0%nat 0%nat))]);
+ (AOther 1, [(1,(mkO 2 1 Leader [(2,1);(2,7)] 0%nat 0%nat))]);
+ (ASend 1 (mkReq 2 1 0%nat 0 [(2,1);(2,7)] 0%nat), [(1,(mkO 2 1 Leader [(2,1);(2,7)] 0%nat 0%nat))]);
+ (ARecvCut 2 (mkReq 2 1 0%nat 0 [(2,1);(2,7)] 0%nat) 1%nat, [(2,(mkO 2 1 Follower [(2,1)] 1%nat 0%nat))]);
+ (ARecv 2 (mkReq 2 1 0%nat 0 [(2,1);(2,7)] 0%nat), [(2,(mkO 2 1 Follower [(2,1);(2,7)] 2%nat 0%nat))]);
+ (AAck 1 2 2%nat, [(1,(mkO 2 1 Leader [(2,1);(2,7)] 2%nat 2%nat));(2,(mkO 2 1 Follower [(2,1);(2,7)] 2%nat 0%nat));(3,(mkO 1 0 Follower [] 0%nat 0%nat))])].
+
+Example sample_history_cut_accepted : exists s, run [1; 2; 3] sample_history_cut = ROk s.
+Proof. eexists. vm_compute. reflexivity. Qed.
+
+(* the history up to the cut is accepted too: after it node 2 holds exactly the one entry it consumed *)
+Example sample_history_cut_prefix_accepted : exists s, run [1; 2; 3] (firstn 7 sample_history_cut) = ROk s.
+Proof. eexists. vm_compute. reflexivity. Qed.
+
+(* a cut of a request that no leader ever wrote is rejected *)
+Example cut_of_unsent_request_rejected :
+  run [1; 2; 3] (firstn 5 sample_history_cut ++
+    [(ARecvCut 2 (mkReq 2 1 0%nat 0 [(2,1);(2,7)] 0%nat) 1%nat, [(2,(mkO 2 1 Follower [(2,1)] 1%nat 0%nat))])]) = RFail 5 52.
+Proof. vm_compute. reflexivity. Qed.
+
+(* and a cut does not let a follower hold more than the entries it consumed *)
+Example cut_with_whole_log_rejected :
+  run [1; 2; 3] (firstn 6 sample_history_cut ++
+    [(ARecvCut 2 (mkReq 2 1 0%nat 0 [(2,1);(2,7)] 0%nat) 1%nat, [(2,(mkO 2 1 Follower [(2,1);(2,7)] 1%nat 0%nat))])]) = RFail 6 2.
 Proof. vm_compute. reflexivity. Qed.
